@@ -11,7 +11,9 @@ import (
 	"io"
 	"log/slog"
 	"net"
+	"net/http"
 	"runtime"
+	"sort"
 	"strconv"
 	"strings"
 	"sync"
@@ -22,6 +24,9 @@ import (
 
 	"github.com/spf13/afero"
 	"github.com/yandex/pandora/cli"
+	phttp "github.com/yandex/pandora/components/guns/http"
+	pbase "github.com/yandex/pandora/components/providers/base"
+	httpammo "github.com/yandex/pandora/components/providers/http/ammo"
 	"github.com/yandex/pandora/core"
 	"github.com/yandex/pandora/core/config"
 	"github.com/yandex/pandora/core/engine"
@@ -335,4 +340,102 @@ func grpcTargetFor(script string) (addr string, stop func()) {
 		return a, st
 	}
 	return sharedGrpc(), func() {}
+}
+
+// ---------------------------------------------------------------- k=shootstress : Shoot at CPU speed from many instances
+
+// stubClient answers without a network: status 200 + (number after the last 'x' of the path) mod 300, a one-byte body.
+type stubClient struct{}
+
+func stubStatus(path string) int {
+	i := strings.LastIndexByte(path, 'x')
+	n, _ := strconv.Atoi(path[i+1:])
+	return 200 + n%300
+}
+
+func (stubClient) Do(req *http.Request) (*http.Response, error) {
+	return &http.Response{StatusCode: stubStatus(req.URL.Path), Proto: "HTTP/1.1", ProtoMajor: 1, ProtoMinor: 1,
+		Header: http.Header{}, Body: io.NopCloser(strings.NewReader("x")), Request: req}, nil
+}
+func (stubClient) CloseIdleConnections() {}
+
+func stressPath(k int) string { return fmt.Sprintf("/s%d/t%d/x%d", k%7, k%5, k) }
+func stressTag(k int) string  { return []string{"", "T"}[k%2] }
+
+// runShootStress: g instances, each with its OWN gun built by the public constructor (as core/engine gives every
+// instance its own gun) and bound to its own aggregator, shoot n ammo each as fast as they can: the real
+// ProviderBase.NextID hands out the ids, the real NewGunAmmo / GunAmmo.Request build the samples, BaseGun.Shoot fills
+// them; only the network is replaced (Client stub). The requests cycle through `paths` paths, so that whatever the guns
+// of a process share is hit by all instances at once, with the same and with different paths. The observation lists, for
+// every path, the distinct (tag, proto, net) triples its samples carried.
+func runShootStress(m map[string]string) string {
+	g, n, paths := atoi(m["g"], 8), atoi(m["n"], 1000), atoi(m["paths"], 35)
+	conf := phttp.DefaultHTTPGunConfig()
+	conf.Target = "127.0.0.1:1"
+	conf.TargetResolved = "127.0.0.1:1"
+	conf.AutoTag.Enabled = m["auto"] == "1"
+	conf.AutoTag.URIElements = atoi(m["el"], 2)
+	conf.AutoTag.NoTagOnly = m["nto"] == "1"
+	var pb pbase.ProviderBase
+	recs := make([]*nsRec, g)
+	start := make(chan struct{})
+	var wg sync.WaitGroup
+	bindErr := atomic.Bool{}
+	for i := 0; i < g; i++ {
+		recs[i] = &nsRec{}
+		gun := phttp.NewHTTP1Gun(conf, zap.NewNop())
+		if err := gun.Bind(recs[i], core.GunDeps{Ctx: context.Background(), Log: zap.NewNop()}); err != nil {
+			bindErr.Store(true)
+			continue
+		}
+		gun.Client = stubClient{}
+		wg.Add(1)
+		go func(i int) {
+			defer wg.Done()
+			<-start
+			for j := 0; j < n; j++ {
+				k := (i*7 + j) % paths
+				req, err := http.NewRequest("GET", stressPath(k), nil)
+				if err != nil {
+					return
+				}
+				gun.Shoot(httpammo.NewGunAmmo(req, stressTag(k), pb.NextID()))
+			}
+		}(i)
+	}
+	if bindErr.Load() {
+		return "bind-error"
+	}
+	close(start)
+	wg.Wait()
+	total := 0
+	ids := map[uint64]bool{}
+	seen := make([]map[string]bool, paths)
+	stray := 0
+	for _, r := range recs {
+		for _, s := range r.got {
+			total++
+			ids[s.ID()] = true
+			// the stub answers path k with status 200+k (paths <= 300): the sample is attributed to its path by its code
+			k := s.ProtoCode() - 200
+			if k < 0 || k >= paths {
+				stray++
+				continue
+			}
+			if seen[k] == nil {
+				seen[k] = map[string]bool{}
+			}
+			seen[k][fmt.Sprintf("%s:%d:%d", hx(s.Tags()), s.ProtoCode(), netOf(s))] = true
+		}
+	}
+	var parts []string
+	for k := 0; k < paths; k++ {
+		var vs []string
+		for v := range seen[k] {
+			vs = append(vs, v)
+		}
+		sort.Strings(vs)
+		parts = append(parts, fmt.Sprintf("%d=%s", k, strings.Join(vs, "/")))
+	}
+	return fmt.Sprintf("res=ok count=%d distinct=%d stray=%d p=%s", total, len(ids), stray, strings.Join(parts, ";"))
 }
